@@ -912,6 +912,11 @@ func (rc *RelationConstraint) match(ctx context.Context, s *search, pn blob.Ref,
 
 		var bm camtypes.BlobMeta
 		bm, err = s.blobMeta(ctx, relRef)
+		if errors.Is(err, os.ErrNotExist) {
+			// The claim points at a blob we don't have; there is no node to test.
+			err = nil
+			return true
+		}
 		if err != nil {
 			return false
 		}
